@@ -75,6 +75,11 @@ MUST_FIRE = [
      "            if A_perf.min() == A_perf.max():\n                A_perf = np.zeros_like(A_perf, dtype=float)\n            elif A_perf.min() < 0 or A_perf.max() > 1:\n                A_perf = (\n                    1\n                    / (A_perf.max() - A_perf.min() + 1)\n                    * (A_perf - A_perf.min())\n                )\n            else:\n                A_perf = A_perf.astype(float)\n"),
     ("vote-vectors-ravel-memory-order", ["C17", "C12"], ["R17.2", "R12.3"], P + "utils/_aggregation.py",
      "weights=w.ravel()", "weights=w.ravel(order=\"K\")"),
+    ("is-unlabeled-empty-by-len", ["C16"], ["R16.4"], P + "utils/_label.py",
+     "        return np.array(y, dtype=bool)\n", "        return np.zeros(len(y), dtype=bool)\n"),
+    ("encoder-dtype-result-type", ["C16"], ["R16.5"], P + "utils/_label_encoder.py",
+     "self._dtype = np.append(self.classes, self.missing_label).dtype",
+     "self._dtype = np.result_type(np.asarray(self.classes).dtype, type(self.missing_label))"),
     # ---- C03
     ("split-set-state-deleted", ["C03"], ["R3"], BZ,
      "        self.random_state_.set_state(random_state_state)\n", "        pass\n"),
